@@ -237,4 +237,313 @@ theorem payload_roundtrip (c : Col) (es : PageEntries) (hwf : WFPage c es) :
       exact zipEntries_roundtrip c.maxDef es _ (fun e he => (hent e he).2.2)
         (Or.inr ⟨rfl, fun e he => by have := (hent e he).2.1; omega⟩)
 
+/-! ## the page header -/
+
+theorem fieldHeader_length_pos (last id code : Nat) : 1 ≤ (fieldHeader last id code).length := by
+  unfold fieldHeader; split <;> simp
+
+theorem decFields_cons_int (last id ty : Nat) (n : Int) (fs : List (Nat × TVal)) (hlt : last < id)
+    (hty : ty = tI32 ∨ ty = tI64) (f : Nat) (hf : 1 ≤ f) (rest : Bytes)
+    (h2 : decFields id f (encFields id fs ++ rest) = some (fs, rest)) :
+    decFields last (f + 1) (encFields last ((id, .int ty n) :: fs) ++ rest) = some ((id, .int ty n) :: fs, rest) := by
+  have hv : (TVal.int ty n).WF := by simpa [TVal.WF] using hty
+  obtain ⟨hc16, hc0⟩ := code_ok _ hv
+  have i1 := decVal_enc (.int ty n) hv f (encFields id fs ++ rest) (by simpa [TVal.size] using hf)
+  obtain ⟨h, r, he, hne, hmod, hid⟩ := header_dec last id (TVal.int ty n).code hlt hc16 hc0
+    ((TVal.int ty n).enc ++ (encFields id fs ++ rest))
+  have hnb : ¬ ((TVal.int ty n).code = tTrue ∨ (TVal.int ty n).code = tFalse) := by
+    simp only [TVal.code]; unfold tI32 tI64 at hty; unfold tTrue tFalse; omega
+  simp only [encFields, List.append_assoc]
+  rw [he]
+  unfold decFields
+  simp only [if_neg hne, hmod, hid, if_neg hnb]
+  simp only [TVal.ecode] at i1
+  simp only [i1, h2]
+
+theorem pageHeader_size_le (u cz nv : Nat) (sfs : List (Nat × TVal))
+    (hsz : sizeFields sfs ≤ (encFields 0 sfs).length) :
+    sizeFields [(2, TVal.int 5 (u : Int)), (3, .int 5 (cz : Int)),
+           (5, .struct [(1, .int 5 (nv : Int)), (2, .int 5 0), (3, .int 5 3), (4, .int 5 3), (5, .struct sfs)])]
+      ≤ (pageHeaderT u cz nv (.struct sfs)).enc.length := by
+  have h1 := fun a b c => fieldHeader_length_pos a b c
+  have h2 := fun n => uvar_length_pos n
+  simp only [pageHeaderT, TVal.enc, encFields, TVal.size, sizeFields, List.length_append, TVal.code]
+  have a1 := h1 0 1 5; have a2 := h1 1 2 5; have a3 := h1 2 3 5; have a4 := h1 3 5 tStruct
+  have a5 := h1 3 4 5; have a6 := h1 4 5 tStruct
+  have b1 := h2 (zig 0); have b2 := h2 (zig u); have b3 := h2 (zig cz); have b4 := h2 (zig nv); have b5 := h2 (zig 3)
+  simp only [List.length_cons, List.length_nil]
+  omega
+
+theorem pageHeader_wf (u cz nv : Nat) (sfs : List (Nat × TVal)) (hst : WFFields 0 sfs) :
+    (pageHeaderT u cz nv (.struct sfs)).WF := by
+  simp [pageHeaderT, TVal.WF, WFFields, tI32, tI64, hst]
+
+/-- the thrift decoder, with the fuel `specPage` (and the reader) gives it, returns the page header and
+stops exactly at its end -/
+theorem decVal_pageHeader (u cz nv : Nat) (sfs : List (Nat × TVal)) (hst : WFFields 0 sfs)
+    (hsz : sizeFields sfs ≤ (encFields 0 sfs).length) (t : Bytes) (F : Nat)
+    (hF : (pageHeaderT u cz nv (.struct sfs)).enc.length + 2 ≤ F) :
+    decVal tStruct F ((pageHeaderT u cz nv (.struct sfs)).enc ++ t) = some (pageHeaderT u cz nv (.struct sfs), t) := by
+  have hle := pageHeader_size_le u cz nv sfs hsz
+  have hwf := pageHeader_wf u cz nv sfs hst
+  generalize hL : (pageHeaderT u cz nv (.struct sfs)).enc.length = L at hle hF
+  have hwf3 : WFFields 1 [(2, TVal.int 5 (u : Int)), (3, .int 5 (cz : Int)),
+           (5, .struct [(1, .int 5 (nv : Int)), (2, .int 5 0), (3, .int 5 3), (4, .int 5 3), (5, .struct sfs)])] := by
+    simp [TVal.WF, WFFields, tI32, tI64, hst]
+  have h3 := decFields_enc 1 _ hwf3 L t hle
+  have hL1 : 1 ≤ L := by simp only [sizeFields, TVal.size] at hle; omega
+  have h4 := decFields_cons_int 0 1 5 0 _ (by omega) (Or.inl rfl) L hL1 t h3
+  have h5 : decVal tStruct (L + 2) ((pageHeaderT u cz nv (.struct sfs)).enc ++ t)
+      = some (pageHeaderT u cz nv (.struct sfs), t) := by
+    unfold decVal
+    rw [if_neg (by unfold tStruct tTrue tFalse; omega), if_neg (by unfold tStruct tI32 tI64; omega),
+      if_neg (by unfold tStruct tBin; omega), if_neg (by unfold tStruct tList; omega), if_pos rfl]
+    simp only [pageHeaderT, TVal.enc] at h4 ⊢
+    rw [h4]
+  exact decVal_fuel_mono h5 hF
+
+/-- the fields of the `Statistics` struct of a page header -/
+def statsFields (r : Option Nat × Option Bytes × Option Bytes) : List (Nat × TVal) := (statsT r).fieldsOf
+
+theorem statsT_eq (r : Option Nat × Option Bytes × Option Bytes) : statsT r = .struct (statsFields r) := rfl
+
+theorem statsFields_wf (r : Option Nat × Option Bytes × Option Bytes) : WFFields 0 (statsFields r) := by
+  obtain ⟨a, b, c⟩ := r
+  cases a <;> cases b <;> cases c <;> simp [statsFields, statsT, TVal.fieldsOf, WFFields, TVal.WF, tI32, tI64]
+
+theorem flat_nil (last : Nat) : sizeFields [] ≤ (encFields last []).length := by
+  simp [sizeFields, encFields]
+
+theorem flat_cons_int (last id ty : Nat) (n : Int) (fs : List (Nat × TVal))
+    (h : sizeFields fs ≤ (encFields id fs).length) :
+    sizeFields ((id, .int ty n) :: fs) ≤ (encFields last ((id, .int ty n) :: fs)).length := by
+  have h1 := fieldHeader_length_pos last id (TVal.int ty n).code
+  have h2 := uvar_length_pos (zig n)
+  simp only [sizeFields, TVal.size, encFields, TVal.enc, List.length_append]
+  omega
+
+theorem flat_cons_bin (last id : Nat) (b : Bytes) (fs : List (Nat × TVal))
+    (h : sizeFields fs ≤ (encFields id fs).length) :
+    sizeFields ((id, .bin b) :: fs) ≤ (encFields last ((id, .bin b) :: fs)).length := by
+  have h1 := fieldHeader_length_pos last id (TVal.bin b).code
+  have h2 := uvar_length_pos b.length
+  simp only [sizeFields, TVal.size, encFields, TVal.enc, List.length_append]
+  omega
+
+theorem statsFields_size (r : Option Nat × Option Bytes × Option Bytes) :
+    sizeFields (statsFields r) ≤ (encFields 0 (statsFields r)).length := by
+  obtain ⟨a, b, c⟩ := r
+  cases a <;> cases b <;> cases c <;>
+    simp only [statsFields, statsT, TVal.fieldsOf, List.nil_append, List.append_nil, List.cons_append] <;>
+    repeat (first | apply flat_nil | apply flat_cons_int | apply flat_cons_bin)
+
+theorem decPHdr_pageHeader (u cz nv : Nat) (sfs : List (Nat × TVal)) :
+    decPHdr (pageHeaderT u cz nv (.struct sfs)) =
+      some { ty := 0, uncompressed := u, compressed := cz, dph := some (nv, 0, 3, 3, some sfs),
+             hasDict := false, hasIndex := false, hasV2 := false } := by
+  simp [decPHdr, pageHeaderT, TVal.fieldsOf, getI32, getStruct, List.lookup]
+
+/-- **Parser side of the page theorem**: if the bytes at `pos` start with a v1 PLAIN/RLE page header,
+the announced compressed size is available, decompresses (codec 0: is) to `raw` of the announced
+uncompressed size, and `raw` decodes to `es`, then `specPage` returns exactly that. -/
+theorem specPage_of_header (dc : Decomp) (c : Col) (codec : Int) (file : Bytes) (pos : Nat)
+    (u cz nv : Nat) (sfs : List (Nat × TVal)) (t raw : Bytes) (es : List (Entry Bytes))
+    (hdec : decVal tStruct ((file.drop pos).length + 2) (file.drop pos) = some (pageHeaderT u cz nv (.struct sfs), t))
+    (hcz : cz ≤ t.length)
+    (hraw : (codec = 0 ∧ t.take cz = raw) ∨ (codec = 1 ∧ dc.snappy (t.take cz) = some raw) ∨
+      (codec = 2 ∧ dc.gzip (t.take cz) = some raw))
+    (hu : raw.length = u) (hpay : decodePayload c nv raw = .ok es) :
+    specPage dc c codec file pos =
+      .ok { numValues := nv, entries := es, headerLen := (file.drop pos).length - t.length,
+            compressedLen := cz, uncompressedLen := u, stats := some sfs } := by
+  unfold specPage
+  simp only [hdec, decPHdr_pageHeader, bind, Except.bind, pure, Except.pure]
+  simp only [decodePayload, bind, Except.bind, pure, Except.pure] at hpay
+  have hneg : ¬ ((nv : Int) < 0 ∨ (cz : Int) < 0 ∨ (u : Int) < 0) := by omega
+  have htl : ¬ ((t.take cz).length < cz) := by simp only [List.length_take]; omega
+  simp only [ne_eq, not_true_eq_false, if_false, and_false, hneg, Int.toNat_natCast, htl]
+  rcases hraw with ⟨h0, hr⟩ | ⟨h1, hr⟩ | ⟨h2, hr⟩
+  · subst h0
+    simp only [if_true, hr, hu, not_true_eq_false, if_false, hpay]
+  · subst h1
+    simp only [show ¬ ((1 : Int) = 0) by decide, if_false, if_true, hr, hu, not_true_eq_false, hpay]
+  · subst h2
+    simp only [show ¬ ((2 : Int) = 0) by decide, show ¬ ((2 : Int) = 1) by decide, if_false, if_true, hr, hu,
+      not_true_eq_false, hpay]
+
+/-- what the writer's codec and the parser's decompressor have to agree on for one payload: codec 0
+stores the payload as it is; 1 (snappy) and 2 (gzip) are the external libraries, whose decoder must
+invert their encoder on this payload -/
+def CodecOK (dc : Decomp) (k : Codec) (codec : Int) (raw : Bytes) : Prop :=
+  (codec = 0 ∧ k.id = 0) ∨ (codec = 1 ∧ k.id ≠ 0 ∧ dc.snappy (k.compress raw) = some raw) ∨
+    (codec = 2 ∧ k.id ≠ 0 ∧ dc.gzip (k.compress raw) = some raw)
+
+/-- the statistics fields of a page's header -/
+def pageStatsFields (c : Col) (es : PageEntries) : List (Nat × TVal) :=
+  statsFields ((pageStats c es).result c.ty c.isRequired)
+
+theorem pageBytes_eq (k : Codec) (c : Col) (es : PageEntries) :
+    pageBytes k c es = ((pageHeaderT (pagePayload c es).length (k.apply (pagePayload c es)).length es.length
+      (.struct (pageStatsFields c es))).enc, k.apply (pagePayload c es)) := rfl
+
+/-- **The page round trip (C01 core, C02 lengths).**  Wherever the two `Write`s of a well-formed page
+land in a file (`pre` before, `rest` after), the specification parser started at the page's offset
+returns exactly the page's entries; the header length, the compressed and the uncompressed sizes it
+reports are the lengths of the header bytes, of the stored payload and of the uncompressed payload. -/
+theorem specPage_pageBytes_codec (dc : Decomp) (k : Codec) (codec : Int) (c : Col) (es : PageEntries)
+    (hwf : WFPage c es) (hk : CodecOK dc k codec (pagePayload c es)) (pre rest : Bytes) :
+    specPage dc c codec (pre ++ (pageBytes k c es).1 ++ (pageBytes k c es).2 ++ rest) pre.length =
+      .ok { numValues := es.length, entries := es, headerLen := (pageBytes k c es).1.length,
+            compressedLen := (pageBytes k c es).2.length, uncompressedLen := (pagePayload c es).length,
+            stats := some (pageStatsFields c es) } := by
+  rw [pageBytes_eq]
+  simp only
+  generalize hh : pageHeaderT (pagePayload c es).length (k.apply (pagePayload c es)).length es.length
+      (.struct (pageStatsFields c es)) = hdr
+  have hdrop : (pre ++ hdr.enc ++ k.apply (pagePayload c es) ++ rest).drop pre.length
+      = hdr.enc ++ (k.apply (pagePayload c es) ++ rest) := by
+    rw [List.append_assoc, List.append_assoc, List.drop_left]
+  have hdec := decVal_pageHeader (pagePayload c es).length (k.apply (pagePayload c es)).length es.length
+    (pageStatsFields c es) (statsFields_wf _) (statsFields_size _) (k.apply (pagePayload c es) ++ rest)
+    ((hdr.enc ++ (k.apply (pagePayload c es) ++ rest)).length + 2)
+    (by rw [hh]; simp only [List.length_append]; omega)
+  rw [hh] at hdec
+  have hmain := specPage_of_header dc c codec (pre ++ hdr.enc ++ k.apply (pagePayload c es) ++ rest) pre.length
+    (pagePayload c es).length (k.apply (pagePayload c es)).length es.length (pageStatsFields c es)
+    (k.apply (pagePayload c es) ++ rest) (pagePayload c es) es
+    (by rw [hdrop, hh]; exact hdec) (by simp only [List.length_append]; omega)
+    (by
+      rw [List.take_left]
+      rcases hk with ⟨h0, hid⟩ | ⟨h1, hid, hs⟩ | ⟨h2, hid, hs⟩
+      · exact Or.inl ⟨h0, by unfold Codec.apply; rw [if_pos hid]⟩
+      · exact Or.inr (Or.inl ⟨h1, by unfold Codec.apply; rw [if_neg hid]; exact hs⟩)
+      · exact Or.inr (Or.inr ⟨h2, by unfold Codec.apply; rw [if_neg hid]; exact hs⟩))
+    rfl (payload_roundtrip c es hwf)
+  rw [hmain, hdrop]
+  simp only [List.length_append, Nat.add_sub_cancel]
+
+/-- **Uncompressed pages** (`k.id = 0`, codec 0 in the column-chunk metadata). -/
+theorem specPage_pageBytes (dc : Decomp) (k : Codec) (hk : k.id = 0) (c : Col) (es : PageEntries)
+    (hwf : WFPage c es) (pre rest : Bytes) :
+    specPage dc c 0 (pre ++ (pageBytes k c es).1 ++ (pageBytes k c es).2 ++ rest) pre.length =
+      .ok { numValues := es.length, entries := es, headerLen := (pageBytes k c es).1.length,
+            compressedLen := (pagePayload c es).length, uncompressedLen := (pagePayload c es).length,
+            stats := some (pageStatsFields c es) } := by
+  have := specPage_pageBytes_codec dc k 0 c es hwf (Or.inl ⟨rfl, hk⟩) pre rest
+  have h2 : (pageBytes k c es).2 = pagePayload c es := by
+    rw [pageBytes_eq]; simp only; unfold Codec.apply; rw [if_pos hk]
+  rw [this, h2]
+
+/-- **Snappy pages**, parametric in the external library inverting itself on this payload. -/
+theorem specPage_pageBytes_snappy (dc : Decomp) (k : Codec) (hk : k.id ≠ 0) (c : Col) (es : PageEntries)
+    (hwf : WFPage c es) (hsn : dc.snappy (k.compress (pagePayload c es)) = some (pagePayload c es))
+    (pre rest : Bytes) :
+    specPage dc c 1 (pre ++ (pageBytes k c es).1 ++ (pageBytes k c es).2 ++ rest) pre.length =
+      .ok { numValues := es.length, entries := es, headerLen := (pageBytes k c es).1.length,
+            compressedLen := (k.compress (pagePayload c es)).length, uncompressedLen := (pagePayload c es).length,
+            stats := some (pageStatsFields c es) } := by
+  have := specPage_pageBytes_codec dc k 1 c es hwf (Or.inr (Or.inl ⟨rfl, hk, hsn⟩)) pre rest
+  have h2 : (pageBytes k c es).2 = k.compress (pagePayload c es) := by
+    rw [pageBytes_eq]; simp only; unfold Codec.apply; rw [if_neg hk]
+  rw [this, h2]
+
+/-- **Gzip pages**, likewise. -/
+theorem specPage_pageBytes_gzip (dc : Decomp) (k : Codec) (hk : k.id ≠ 0) (c : Col) (es : PageEntries)
+    (hwf : WFPage c es) (hgz : dc.gzip (k.compress (pagePayload c es)) = some (pagePayload c es))
+    (pre rest : Bytes) :
+    specPage dc c 2 (pre ++ (pageBytes k c es).1 ++ (pageBytes k c es).2 ++ rest) pre.length =
+      .ok { numValues := es.length, entries := es, headerLen := (pageBytes k c es).1.length,
+            compressedLen := (k.compress (pagePayload c es)).length, uncompressedLen := (pagePayload c es).length,
+            stats := some (pageStatsFields c es) } := by
+  have := specPage_pageBytes_codec dc k 2 c es hwf (Or.inr (Or.inr ⟨rfl, hk, hgz⟩)) pre rest
+  have h2 : (pageBytes k c es).2 = k.compress (pagePayload c es) := by
+    rw [pageBytes_eq]; simp only; unfold Codec.apply; rw [if_neg hk]
+  rw [this, h2]
+
+/-- the next page starts right after: header length + compressed length is what `pageBytes` wrote -/
+theorem pageBytes_extent (k : Codec) (c : Col) (es : PageEntries) :
+    ((pageBytes k c es).1 ++ (pageBytes k c es).2).length
+      = (pageBytes k c es).1.length + (k.apply (pagePayload c es)).length := by
+  rw [List.length_append, pageBytes_eq]
+
+/-- **C02, section lengths**: the uncompressed payload is the repetition section (only below a repeated
+element), the definition section and the value section, of exactly these lengths -/
+theorem pagePayload_length (c : Col) (es : PageEntries) :
+    (pagePayload c es).length =
+      (if c.isRequired then 0 else
+        (if c.maxRep > 0 then (encode (bitsLen c.maxRep) (es.map (·.rep))).length else 0) +
+        (encode (bitsLen c.maxDef) (es.map (·.dl))).length) +
+      (plainValues c.ty (nonNull es)).length := by
+  unfold pagePayload
+  by_cases h : c.isRequired = true
+  · simp [h]
+  · by_cases h2 : c.maxRep > 0 <;> simp [h, h2, Nat.add_assoc]
+
+/-- `specPage`, with its `entries ←` block named -/
+def specPage' (dc : Decomp) (c : Col) (codec : Int) (file : Bytes) (pos : Nat) : V SpecPage := do
+  let rest := file.drop pos
+  let (t, rest') ← match decVal tStruct (rest.length + 2) rest with
+    | some r => pure r
+    | none => .error "page: header is not a thrift struct"
+  let hlen := rest.length - rest'.length
+  let ph ← match decPHdr t with | some p => pure p | none => .error "page: header lacks a required field"
+  if ph.ty ≠ 0 then .error "page: not a v1 data page" else
+  let (nv, enc, denc, renc, st) ← match ph.dph with | some d => pure d | none => .error "page: no data_page_header"
+  if enc ≠ 0 then .error "page: value encoding is not PLAIN" else
+  if nv < 0 ∨ ph.compressed < 0 ∨ ph.uncompressed < 0 then .error "page: negative count or size" else
+  if ¬ c.isRequired ∧ denc ≠ 3 then .error "page: definition levels are not RLE" else
+  if c.maxRep > 0 ∧ renc ≠ 3 then .error "page: repetition levels are not RLE" else
+  let comp := rest'.take ph.compressed.toNat
+  if comp.length < ph.compressed.toNat then .error "page: compressed_page_size exceeds the file" else
+  let raw ← (if codec = 0 then pure comp
+             else if codec = 1 then (match dc.snappy comp with | some d => pure d | none => .error "page: snappy payload does not decode")
+             else if codec = 2 then (match dc.gzip comp with | some d => pure d | none => .error "page: gzip payload does not decode")
+             else .error "chunk: unsupported codec")
+  if raw.length ≠ ph.uncompressed.toNat then .error "page: uncompressed_page_size disagrees with the payload" else
+  let n := nv.toNat
+  let entries ← decodePayload c n raw
+  pure { numValues := n, entries := entries, headerLen := hlen, compressedLen := ph.compressed.toNat,
+         uncompressedLen := ph.uncompressed.toNat, stats := st }
+
+/-- `decodePayload` is literally what `specPage` runs on the uncompressed payload -/
+theorem specPage_eq_specPage' (dc : Decomp) (c : Col) (codec : Int) (file : Bytes) (pos : Nat) :
+    specPage dc c codec file pos = specPage' dc c codec file pos := rfl
+
+/-! ## non-vacuity: concrete columns and pages satisfying `WFPage` -/
+section NonVacuity
+
+/-- an optional int32 column; a page with a null between two values -/
+def exCol : Col := { path := ["a"], reps := [.opt], ty := .i32 }
+def exPage : PageEntries := [⟨0, 1, some [1, 0, 0, 0]⟩, ⟨0, 0, none⟩, ⟨0, 1, some [255, 255, 255, 255]⟩]
+
+theorem exPage_wf : WFPage exCol exPage := ⟨by decide, by decide, by decide, by decide⟩
+
+/-- a repeated group of optional strings (`maxRep = 1`, `maxDef = 2`): one record `["hi", null]`, one empty -/
+def exCol2 : Col := { path := ["l", "s"], reps := [.rpt, .opt], ty := .str }
+def exPage2 : PageEntries := [⟨0, 2, some [104, 105]⟩, ⟨1, 1, none⟩, ⟨0, 0, none⟩]
+
+theorem exPage2_wf : WFPage exCol2 exPage2 := ⟨by decide, by decide, by decide, by decide⟩
+
+/-- a required boolean column (no level sections) -/
+def exCol3 : Col := { path := ["b"], reps := [.req], ty := .bool }
+def exPage3 : PageEntries := [⟨0, 0, some [1]⟩, ⟨0, 0, some [0]⟩, ⟨0, 0, some [1]⟩]
+
+theorem exPage3_wf : WFPage exCol3 exPage3 := ⟨by decide, by decide, by decide, by decide⟩
+
+/-- the uncompressed codec satisfies `CodecOK` for every payload and decompressor -/
+example (dc : Decomp) (raw : Bytes) : CodecOK dc ⟨0, id⟩ 0 raw := Or.inl ⟨rfl, rfl⟩
+
+example : decodePayload exCol exPage.length (pagePayload exCol exPage) = .ok exPage :=
+  payload_roundtrip exCol exPage exPage_wf
+
+example (dc : Decomp) (pre rest : Bytes) :
+    (specPage dc exCol2 0 (pre ++ (pageBytes ⟨0, id⟩ exCol2 exPage2).1 ++ (pageBytes ⟨0, id⟩ exCol2 exPage2).2 ++ rest)
+      pre.length).map (·.entries) = .ok exPage2 := by
+  rw [specPage_pageBytes dc ⟨0, id⟩ rfl exCol2 exPage2 exPage2_wf]; rfl
+
+/-- the value section of the required boolean page: 3 bits in one byte, no levels -/
+example : pagePayload exCol3 exPage3 = [5] := by decide
+
+end NonVacuity
+
 end PQ
